@@ -197,13 +197,16 @@ Built(ch) == LET fp0 == FpNeeded(ch, 1, Base)
                  l == Lay(ch, 1, Base, fp0, {}, <<>>) IN
    [words |-> l.words, frames |-> l.frames, fp0 |-> fp0, fits |-> l.endsp <= StackEnd]
 MemOf(ws) == [i \in 1..NW |-> LET a == Base + (i - 1) * Ptr  S == {w \in ws : w[1] = a} IN IF S = {} THEN 0 ELSE (CHOOSE w \in S : TRUE)[2]]
-InitBuilt == /\ rule = "std" /\ done = FALSE
-             /\ \E ch \in {c \in Chains : Buildable(c)} :
-                  LET b == Built(ch) IN
+\* lf: the context frame is a stackless leaf function of F1 (rule lrleaf: .cfa: sp 0 + .ra: lr) called from the first function of
+\* the chain; the stack pointer does not move for that one step, and the chain itself then must not use F1's rule
+InitBuilt == /\ done = FALSE
+             /\ \E lf \in BOOLEAN : \E ch \in {c \in Chains : Buildable(c) /\ (lf => \A k \in 1..Len(c) : c[k].tech # "cfi")} :
+                  LET b == Built(ch)  first == IpOf(ch[1].tech)  ip0 == IF lf THEN A1 ELSE first IN
                   /\ b.fits
+                  /\ rule = (IF lf THEN "lrleaf" ELSE "std")
                   /\ mem = MemOf(b.words)
-                  /\ expect = b.frames
-                  /\ frames = <<[ip |-> IpOf(ch[1].tech), instr |-> IpOf(ch[1].tech), sp |-> Base, fp |-> b.fp0, lr |-> 0, cs |-> 77,
+                  /\ expect = (IF lf THEN <<[ip |-> first, sp |-> Base, trust |-> "cfi", fp |-> b.fp0, fpKnown |-> TRUE]>> ELSE <<>>) \o b.frames
+                  /\ frames = <<[ip |-> ip0, instr |-> ip0, sp |-> Base, fp |-> b.fp0, lr |-> IF lf THEN first ELSE 0, cs |-> 77,
                                 valid |-> {"pc", "sp", "fp", "lr", "cs"}, trust |-> "context"]>>
 Init == IF Mode = "any" THEN InitAny ELSE InitBuilt
 Spec == Init /\ [][Next]_vars
